@@ -197,7 +197,7 @@ func resolveBody(r *explore.Run, rep *report.R, sc string, n, row0, nCons int) {
 		nt = report.Hash("resolve", g.String(), selfInLock, fmt.Sprint(cons))
 	}
 	rep.Eval(sc, report.Hash("resolve", found, installed, invalid, err != nil), nt)
-	if nt != "" && g.edges() >= 3 && wantSample(rep, fmt.Sprintf("resolve/%v/%d/%d/%d", err == nil, found, installed, invalid)) {
+	if nt != "" && g.edges() >= 3 && invalid > 0 && wantSample(rep, "resolve") {
 		rep.Sample(map[string]any{"part": "resolve", "graph": g.String(), "self_in_lock": selfInLock, "constraints": fmt.Sprint(cons), "found": found, "installed": installed, "invalid": invalid, "error": fmt.Sprint(err), "choices": append([]int{}, r.Choices...), "scenario": sc})
 	}
 }
